@@ -51,6 +51,23 @@ func isDefaultDashboard(id string) bool {
 	return exists && item.Type == "dashboard"
 }
 
+// isDashboardOfOrg returns true if id is a default dashboard or a dashboard in the
+// folder structure of the given org. The details files are keyed by id only, so callers
+// must check this before reading or writing a details file on behalf of an org.
+func isDashboardOfOrg(id string, myid int64) bool {
+	if isDefaultDashboard(id) {
+		return true
+	}
+
+	structure, err := readFolderStructure(myid)
+	if err != nil {
+		return false
+	}
+
+	item, exists := structure.Items[id]
+	return exists && item.Type == "dashboard"
+}
+
 func getDashboardDetailsPath(id string) string {
 	if isDefaultDashboard(id) {
 		return fmt.Sprintf("defaultDBs/details/%s.json", id)
@@ -177,6 +194,10 @@ func createDashboard(req *CreateDashboardRequest, myid int64) (map[string]string
 }
 
 func toggleFavorite(id string, myid int64) (bool, error) {
+	if !isDashboardOfOrg(id, myid) {
+		return false, errors.New("toggleFavorite: dashboard not found")
+	}
+
 	// Load the dashboard JSON file
 	dashboardDetailsFname := getDashboardDetailsPath(id)
 
@@ -216,6 +237,9 @@ func toggleFavorite(id string, myid int64) (bool, error) {
 }
 
 func getDashboard(id string, myid int64) (map[string]interface{}, error) {
+	if !isDashboardOfOrg(id, myid) {
+		return nil, errors.New("getDashboard: dashboard not found")
+	}
 
 	dashboardDetailsFname := getDashboardDetailsPath(id)
 
